@@ -914,3 +914,39 @@ pub fn repro_leg(args: &Args) {
     rep.note(NOT_REACHED);
     rep.finish(args);
 }
+
+/// Interpreter-sized leg (Miri): small presets of the synchronous harnesses, each run twice
+/// in-process and compared; undefined behaviour is itself a source of non-reproducibility.
+pub fn small_leg(args: &Args) {
+    let mut rep = Report::new("C20", "small");
+    let ops = args.get_u64("ops", 25);
+    let sync = [
+        "ExecutorDSTHarness", "ListDSTHarness", "SetDSTHarness", "HashDSTHarness", "SortedSetDSTHarness", "TransactionDSTHarness", "GCounterDSTHarness",
+        "PNCounterDSTHarness", "ORSetDSTHarness", "VectorClockDSTHarness", "MultiNodeSimulation.broadcast", "DSTSimulation", "Simulation", "SimulationHarness",
+        "SimulatedConnection", "buggify",
+    ];
+    let mut i = 0usize;
+    for (h, presets, _) in catalogue() {
+        if !sync.contains(&h) {
+            continue;
+        }
+        for p in presets {
+            i += 1;
+            if i % args.shards != args.shard {
+                continue;
+            }
+            let s = args.seed;
+            let (a, n) = dump_text(h, p, s, ops);
+            let (b, _) = dump_text(h, p, s, ops);
+            rep.evaluations += 1;
+            rep.distinct(&(h, p, n > 0));
+            if a != b {
+                rep.violation(format!("C20|{}|same-seed-runs-diverge", h), format!("preset {} seed {} ops {}: two in-process runs differ", p, s, ops), serde_json::json!({"h": h, "p": p, "s": s, "ops": ops}));
+            }
+            if rep.samples.len() < 3 {
+                rep.sample(serde_json::json!({"harness": h, "preset": p, "seed": s, "ops": ops, "dump_bytes": a.len()}));
+            }
+        }
+    }
+    rep.finish(args);
+}
